@@ -48,7 +48,7 @@ from rcc import harness as h
 from odml.tools.converters import VersionConverter          # noqa: E402
 from odml.tools.xmlparser import XMLReader                   # noqa: E402
 
-WORK = os.path.join(h.WORK, 'c15')
+WORK = os.path.join(h.WORK, 'c15-%d' % os.getpid())       # per process: runs on different trees may overlap
 
 VAL_ATTRS = ('unit', 'uncertainty', 'type', 'filename', 'definition', 'reference')
 # attributes a 1.1 Property / Section / Document may carry (written down from the 1.1 format description)
@@ -665,6 +665,12 @@ def _kinds(texts):
     return '+'.join(ks) if ks else 'strings'
 
 
+def _non_values(texts):
+    """Label for a surplus value: the listed contents that are no value (unset, empty) are the ones to look at."""
+    ks = sorted(set(kind(x) for x in texts if absent(x) or x == ''))
+    return '+'.join(ks) if ks else _kinds(texts)
+
+
 def _match_value(e, g, dtype):
     """Does the loaded value g carry the content of the 1.0 value content e? None: no opinion."""
     if isinstance(e, str):
@@ -753,8 +759,8 @@ def check_case(ck, doc, fmt, src, out, log, wit):
             obs[(pkey, 'dtype')] = (q._dtype, _kinds(_column(p, 'type') + texts))
             # dtype
             if exp['dtype'] is not None and q._dtype != exp['dtype']:
-                ck.fail('dtype-kept', 'binary' if exp['dtype'] == 'text' and 'binary' in json.dumps(p) else
-                        'dtype-' + _placement(p, 'type') + _unset_note(p, 'type'), wit,
+                ck.fail('dtype-kept', ('binary' if exp['dtype'] == 'text' and 'binary' in json.dumps(p) else
+                                       'dtype-' + _placement(p, 'type')) + _unset_note(p, 'type'), wit,
                         '%s: dtype %r expected, got %r' % (pid, exp['dtype'], q._dtype))
             # values in order
             gotvals = list(q._values)
@@ -781,7 +787,7 @@ def check_case(ck, doc, fmt, src, out, log, wit):
                     bad = verdicts.index(False) if False in verdicts else min(len(entries), len(gotvals))
                     lost = _lost(entries, gotvals, q._dtype)
                     if len(gotvals) > len(entries) and any(is_nat(t) for t in texts):
-                        vfeat = 'extra-value-beside:' + _kinds(texts)
+                        vfeat = 'extra-value-beside:' + _non_values(texts)
                     elif len(gotvals) < len(entries) and any(is_nat(entries[i]) for i in lost):
                         vfeat = 'value:' + [kind(entries[i]) for i in lost if is_nat(entries[i])][0]
                     elif bad < len(entries) and is_nat(entries[bad]):
@@ -838,7 +844,12 @@ def _lost(entries, gotvals, dtype):
     left = align(entries, gotvals)
     right = [len(entries) - 1 - i for i in align(entries[::-1], gotvals[::-1])][::-1]
     score = lambda idx: sum(1 for i in idx if is_nat(entries[i]))     # noqa: E731
-    return right if score(right) > score(left) else left
+    best = right if score(right) > score(left) else left
+    if best and not score(best):
+        # a string blamed although an interchangeable native scalar (0 beside '0') is listed as well
+        twins = [j for j, e in enumerate(entries) if is_nat(e) and any(same_abs(e, entries[i]) for i in best)]
+        best = twins[:1] + best
+    return best
 
 
 def _suffix(x):
@@ -1416,12 +1427,21 @@ def _convert(src, fmt):
 def run_convert(tier, seed):
     col = h.Collector(
         'C15.convert',
-        rule='one case = (generated 1.0 document, source format XML/JSON/YAML, source kind file/StringIO (+ StringIO with XML declaration for 4 groups)); '
+        rule='one case = (generated 1.0 document, source format XML/JSON/YAML, source kind file/StringIO (+ StringIO with XML declaration for 4 groups; '
+             '+ other layouts of the same source - JSON/YAML keys sorted and empty lists omitted / keys reverse sorted and empty lists '
+             'written out, XML one element per line - for 11 groups and every 7th other document (quick) / all documents (thorough))); '
+             'each document is also compared across its three source formats (formats-agree); '
              'documents: exhaustive placements of the six value attributes over 1..3 value elements, '
              'exhaustive value texts (pool of 12) for 1..2 and (pool of 4/8) for 3 value elements, exhaustive sibling '
              'name sequences (alphabet 3/4, length <= 3/4) for properties / top sections / sub sections / all levels, '
              'id kinds x entity, 1..3 unsupported elements x position x level, XML comments, dependency spelling, '
-             'unnamed properties / sections, all forest shapes <= 3/4 sections with random filling; class key = '
+             'unnamed properties / sections; native JSON/YAML scalars (0, 1, -3, 10**12, 0.0, 1.5, -0.25, 1e-9, true, false, '
+             'null, empty string, lists, YAML date / timestamp) next to their string spellings: as value content (singles, all '
+             'pairs, all triples in the thorough tier, per data type family x data type given or not, repeated falsy ones), as '
+             'content of each value attribute x placement pattern x 1..3 value elements, null / empty entries before and after '
+             'a real one, in unsupported value entries, in every Property / Section / Document level entry, as id; non ASCII and '
+             'markup characters in every text position; all forest shapes <= 3/4 sections with random filling (strings and '
+             'native scalars); class key = '
              '(generator key, format, source kind)', exhaustive=False)
     ck = Checker(col)
     shutil.rmtree(WORK, ignore_errors=True)
